@@ -187,6 +187,15 @@ def run(ctx):
                 best = f.canon(f.ch(r)[0], subst=False)
     if best is None:
         raise AnalysisIncomplete("fsg_search_find_exit: cannot identify the selected-exit variable")
+    # what the function hands back is what was selected in this call under the constraint asked for in this call:
+    # the selected-exit local, its score, or a constant - never something kept in the search object from an earlier
+    # call (which may have been made with another `final`)
+    for r in rets:
+        rv = f.ch(r)[0] if f.ch(r) else None
+        if rv is None or f.k(rv) == "Absent":
+            continue
+        remembered = [j for j in f.walk(rv) if f.k(j) == "Member" and re.match(r"^%s->" % re.escape(f.params[0][0]), f.canon(j, subst=False)) and not f.canon(j, subst=False).startswith("%s->history" % f.params[0][0])]
+        ctx.check(o7, not remembered, key(f, "return:this-call#%d" % rets.index(r)), f.where(r), "the exit search returns `%s`, a value kept in the search object: an entry selected by an earlier call (without the final-state constraint, or before more frames were searched) is handed back as the answer to this one" % f.canon(rv, subst=False))
     sel = [s for s in paths.stores(f) if s["path"] == best]
     ninit = 0
     for s in sel:
@@ -436,6 +445,23 @@ def extra_rules(ctx, P, fns):
             par = lx.parent[par]
         okr = par is not None and lx.k(par) == "Assign" and re.match(r"^lextree->root\[(\w+)\]$", lx.canon(lx.ch(par)[0], subst=False)) is not None and lx.canon(lx.args(ci[0])[2], subst=False) == re.match(r"^lextree->root\[(\w+)\]$", lx.canon(lx.ch(par)[0], subst=False)).group(1)
     ctx.check(o15, okr, "fsg_lextree_init:root-of-state", lx.where(ci[0]) if ci else lx.where(lx.root), "root[s] is not the tree fsg_psubtree_init builds for state s")
+    # words are told from fillers by their place in the dictionary (dict_filler_word / dict_real_word compare the
+    # id with [filler_start, filler_end]): run-time words are appended behind that range, so the range is fixed
+    # by the constructor.  A later write would turn words already added into fillers - dropped from the
+    # hypothesis, looped on every grammar state (seed C01-11)
+    o16 = ctx.rule("CENSUS.O16-filler-range", "the filler range of the dictionary (filler_start, filler_end), by which hypothesis words are told from fillers, is written by the dictionary constructor only", floor=2)
+    P.load_all()
+    nw = 0
+    for g in P.functions():
+        if not g.file.startswith("/repo/") and "/src/" not in g.file:
+            continue
+        for fld in ("filler_start", "filler_end"):
+            for st in paths.stores(g):
+                if st.get("field") == fld and "dict" in (st.get("rec") or ""):
+                    nw += 1
+                    ctx.touch(g)
+                    ctx.check(o16, g.name == "dict_init_s3file", "%s:write:%s" % (g.name, fld), g.where(st["node"]), "`%s` is written in %s: words added to the dictionary before this point that now fall inside the range become fillers (left out of the hypothesis, given self-loops on every grammar state)" % (g.canon(st["lhs"], subst=False), g.name))
+    ctx.check(o16, nw >= 2, "census:filler-range-writers", "src", "writers of the filler range not found (%d)" % nw)
 
 
 def _rel_calls(fn, cond, pol):
